@@ -23,3 +23,32 @@ Theorem C04_global_scope_counts_holders : forall g s i w t,
   is_started g s i w (Some t) = (t <=? length (shared_started g s i)).
 Proof. exact is_started_global. Qed.
 Print Assumptions C04_global_scope_counts_holders.
+
+(* ---- for EVERY schedule ---- *)
+From I2N Require Import Proofs.TraverseInv Proofs.TraverseExcl.
+
+(* For every graph meeting the checked hypotheses gwf_b (one owner per composite node, bridged copies forming classes
+   that agree on flat/scope), every initial pool population and every schedule: at the state reached, the number of
+   workers awaiting a test (creation pre-step included) on a copy of one globally scoped class is at most the largest
+   threshold among the copies - the configured one (max_concurrent_tries, else max_tries, at least 1) or the one
+   after re-entrancy bumps, which only happen when a worker waited longer than the node's time budget. *)
+Theorem C04_mutual_exclusion : forall g p sched i,
+  gwf_b g = true -> n_flat (nd g i) = false -> n_scope (nd g i) = Global ->
+  let s := fst (run_schedule g (init_state g p) sched) in
+  length (runners s (class_of g i)) <= tmax g s (class_of g i).
+Proof. exact mutual_exclusion_b. Qed.
+Print Assumptions C04_mutual_exclusion.
+
+(* ... and as long as no bump happened the bound is the configured limit *)
+Theorem C04_bound_without_overrun : forall g s C,
+  (forall j, mc s j = n_mct (nd g j)) -> tmax g s C = list_max (map (thr0 g) C).
+Proof. exact tmax_unbumped. Qed.
+Print Assumptions C04_bound_without_overrun.
+
+(* a worker that awaits a test holds that node's marker, in every reachable state *)
+Theorem C04_running_holds_marker : forall g p sched v j pre fc uid,
+  gwf_b g = true ->
+  let s := fst (run_schedule g (init_state g p) sched) in
+  ph (wst s v) = Running j pre fc uid -> started (nst s j) = Some v.
+Proof. exact running_holds_marker. Qed.
+Print Assumptions C04_running_holds_marker.
